@@ -273,13 +273,21 @@ def run(ck, prog, ctx):
                 ck.ob("KIND", "guard/sub_ontology/%s" % m, False, "%s is not guarded by a non-empty phenotype intersection: records annotated only to modifier terms are kept" % m, where=fb.where(t.line))
             else:
                 ks, filtered, x = guards[-1]
+                gat_ = pvn.of_operand(fb, x.discr)
+                g_and = any(a_[0] == "call" and "BitAnd" in a_[2] and "HpoGroup" in a_[2] for a_ in gat_)
+                g_or = any(a_[0] == "call" and "BitOr" in a_[2] and "HpoGroup" in a_[2] and "HpoTermId>" not in a_[2] for a_ in gat_)
+                if g_or and not g_and:
+                    ck.ob("KIND", "guard/sub_ontology/%s/operator" % m, False, "%s is guarded by the emptiness of a UNION (`|`) of the record's terms with the id set, not of their intersection: the test never holds for a non-empty ontology" % m, where=fb.where(x.line))
                 ck.ob("KIND", "guard/sub_ontology/%s" % m, ks == {K} and filtered, "%s is guarded by the intersection of the %s record's terms with the %s id set" % (m, "/".join(sorted(ks)), "modifier-filtered" if filtered else "UNFILTERED"), where=fb.where(x.line))
             # link set: the term argument comes from record.hpo_terms() & (unfiltered ids)
             tat = pv.of_operand(fb, t.args[3]) if len(t.args) > 3 else frozenset()
             has_and = any(a[0] == "call" and "BitAnd" in a[2] and "HpoGroup" in a[2] for a in tat)
             fam_ids = {x_.id for x_ in prog.family(sub)}
             filt = any(a[0] == "call" and a[1].endswith("::filter") and a[3] in fam_ids for a in tat)  # a filter inside the set operators' own code is not the modifier filter
-            if not has_and:
+            has_or = any(a[0] == "call" and "BitOr" in a[2] and "HpoGroup" in a[2] and a[3] in fam_ids for a in tat)
+            if not has_and and has_or:
+                ck.ob("KIND", "links/sub_ontology/%s" % m, False, "%s links the record to the UNION of its direct terms and the retained ids (`|` where the intersection `&` is meant): the copy is linked to every retained term" % m, where=fb.where(t.line))
+            elif not has_and:
                 ck.undecided("KIND", "links/sub_ontology/%s" % m, "link set is not an intersection of group sets", where=fb.where(t.line))
             else:
                 ck.ob("KIND", "links/sub_ontology/%s" % m, not filt, "%s links the record to its direct terms ∩ %s" % (m, "all retained ids" if not filt else "the modifier-FILTERED ids (modifier links are lost)"), where=fb.where(t.line))
@@ -293,6 +301,18 @@ def run(ck, prog, ctx):
         ck.ob("KIND", "K3/sub_ontology/" + m, K in seen_kinds, "sub_ontology %s %s records" % ("re-annotates" if K in seen_kinds else "never re-annotates", K), where=sub.where())
 
     check_complete_iteration(ck, "KIND", prog, [SUB], "the leaves, retained terms and annotation records")
+    # the retained set: every leaf ITSELF and every term of its path to the root are put into it (two sources; without the first a leaf is missing
+    # from its own sub-ontology, without the second the terms between leaf and root are)
+    ins14 = [(fb_, bi_, t_) for fb_ in prog.family(sub) for bi_, t_ in fb_.calls() if t_.callee.method == "insert" and re.search(r"HashSet|BTreeSet", t_.callee.def_args or t_.callee.name or "") and "HpoTermInternal" in (t_.callee.def_args or "") and len(t_.args) == 2]
+    if ins14:
+        kinds14 = set()
+        for fb_, bi_, t_ in ins14:
+            at_ = pv.of_operand(fb_, t_.args[1])
+            if any(a_[0] == "call" and a_[1].endswith("::path_to_ancestor") for a_ in at_):
+                kinds14.add("path")
+            else:
+                kinds14.add("leaf")
+        ck.ob("KIND", "retained-set/sources", kinds14 == {"leaf", "path"}, "sub_ontology puts into the retained set: %s (expected: each leaf itself and the terms of its path to the root)" % (" and ".join(sorted({"leaf": "each leaf itself", "path": "the terms of the leaf's path to the root"}[k_] for k_ in kinds14)) or "nothing"), where=sub.where(ins14[0][2].line))
     # ... and none of its loops is left in the middle: a `break` where a record is merely to be skipped (`continue`) drops every later record
     from engines import for_loops as _fl14, loop_early_exits as _lee14
     for fb_ in prog.family(sub):
